@@ -961,6 +961,9 @@ fn render_program(m: &Model, g: &mut Gen, hz: &str, mode: Mode) -> (Prog, Option
             }
         }
     }
+    if matches!(mode, Mode::Forms) && g.d.chance(130) {
+        effect_section(m, g, &mut p);
+    }
     // the offending addition of a negative case
     let neg = match mode {
         Mode::NegDyn => neg_dyn(m, g),
@@ -968,6 +971,101 @@ fn render_program(m: &Model, g: &mut Gen, hz: &str, mode: Mode) -> (Prog, Option
         _ => None,
     };
     (p, neg, planted)
+}
+
+/// Calls whose result is discarded, in statement positions (tail of a function body, of a
+/// `while` body, of an if branch / match arm inside a loop, `e;`, `let _ = e;`) through every
+/// call form of a printing trait method: every call must still happen, in order.
+fn effect_section(m: &Model, g: &mut Gen, p: &mut Prog) {
+    let cands: Vec<usize> = (0..m.vals.len()).filter(|&vi| !matches!(m.recvs[m.vals[vi].0].kind, RK::BoxOf(_))).collect();
+    if cands.is_empty() {
+        return;
+    }
+    let mut rcs: Vec<usize> = vec![];
+    let mut lines: Vec<String> = vec![];
+    let mut helpers: Vec<(String, String)> = vec![];
+    let mut calls: Vec<String> = vec![];
+    let n = 2 + g.d.below(4);
+    for k in 0..n {
+        let vi = cands[g.d.below(cands.len())];
+        let rc = m.vals[vi].0;
+        if !rcs.contains(&rc) {
+            rcs.push(rc);
+        }
+        let ty = m.ty_text(rc, false);
+        let form = ["u", "gm", "gu", "dp"][g.d.below(4)];
+        let ctxk = ["tail", "stmt", "let", "wt", "wif", "mt"][g.d.below(6)];
+        let tag = format!("{form}-{ctxk}-{k}");
+        let (generics, pty) = match form {
+            "u" => ("", ty.clone()),
+            "dp" => ("", "dyn Fx".to_string()),
+            _ => ("[U: Fx]", "U".to_string()),
+        };
+        let call = |t: &str| -> String {
+            if form == "gm" {
+                format!("v.fx(\"{t}\")")
+            } else {
+                format!("Fx::fx(v, \"{t}\")")
+            }
+        };
+        let name = format!("fx_{form}_{ctxk}_{k}");
+        let body = match ctxk {
+            "tail" => {
+                lines.push(format!("fx.{tag}.r{rc}"));
+                format!("    {}\n", call(&tag))
+            }
+            "stmt" => {
+                lines.push(format!("fx.{tag}.r{rc}"));
+                format!("    {};\n    ()\n", call(&tag))
+            }
+            "let" => {
+                lines.push(format!("fx.{tag}.r{rc}"));
+                format!("    let _ = {};\n    ()\n", call(&tag))
+            }
+            "wt" => {
+                lines.push(format!("fx.{tag}.r{rc}"));
+                lines.push(format!("fx.{tag}.r{rc}"));
+                format!(
+                    "    let i: Ref[int32] = ref(0);\n    while ref_get(i) < 2 {{\n        let _ = ref_set(i, ref_get(i) + 1);\n        {}\n    }}\n",
+                    call(&tag)
+                )
+            }
+            "wif" => {
+                lines.push(format!("fx.{tag}b.r{rc}"));
+                lines.push(format!("fx.{tag}a.r{rc}"));
+                format!(
+                    "    let i: Ref[int32] = ref(0);\n    while ref_get(i) < 2 {{\n        let _ = ref_set(i, ref_get(i) + 1);\n        if ref_get(i) > 1 {{ {} }} else {{ {} }}\n    }}\n",
+                    call(&format!("{tag}a")),
+                    call(&format!("{tag}b"))
+                )
+            }
+            _ => {
+                lines.push(format!("fx.{tag}.r{rc}"));
+                format!(
+                    "    let i: Ref[int32] = ref(0);\n    while ref_get(i) < 1 {{\n        let _ = ref_set(i, ref_get(i) + 1);\n        match ref_get(i) > 0 {{\n            true => {},\n            false => (),\n        }}\n    }}\n",
+                    call(&tag)
+                )
+            }
+        };
+        helpers.push((name.clone(), format!("fn {name}{generics}(v: {pty}) -> unit {{\n{body}}}")));
+        calls.push(format!("    let _ = {name}(x{vi});"));
+        g.label(&format!("effect-form:{form}"));
+        g.label(&format!("effect-ctx:{ctxk}"));
+    }
+    let mut decl = String::from("trait Fx {\n    fn fx(Self, string) -> unit;\n}\n\n");
+    for rc in &rcs {
+        let ty = m.ty_text(*rc, false);
+        decl.push_str(&format!(
+            "impl Fx for {ty} {{\n    fn fx(self: {ty}, a0: string) -> unit {{\n        string_println(\"fx.\" + a0 + \".r{rc}\")\n    }}\n}}\n\n"
+        ));
+    }
+    p.decls.push_str(&decl);
+    for (k, h) in helpers {
+        p.helpers.insert(k, h);
+    }
+    p.prints.extend(calls);
+    p.groups.push(json!({"gid": "fx", "kind": "effects", "lines": lines, "forms": []}));
+    g.label("effects");
 }
 
 /// (kind, extra helper fns, extra main lines)
@@ -1132,6 +1230,17 @@ fn judge_positive(files: &[(String, String)], groups: &[Value], ctx: &mut Ctx) -
         }
     }
     for gr in groups {
+        if gr["kind"].as_str() == Some("effects") {
+            let want: Vec<&str> = gr["lines"].as_array().map(|a| a.iter().filter_map(|x| x.as_str()).collect()).unwrap_or_default();
+            let have: Vec<&str> = out.lines().filter(|l| l.starts_with("fx.")).collect();
+            if want != have {
+                return Pos::Fail(
+                    "C17|effect-calls".into(),
+                    format!("method calls whose result is discarded: expected the lines\n  {}\nthe Go program prints\n  {}", want.join("\n  "), have.join("\n  ")),
+                );
+            }
+            continue;
+        }
         let gid = gr["gid"].as_str().unwrap_or("");
         let expect = gr["expect"].as_str().unwrap_or("");
         let forms: Vec<&str> = gr["forms"].as_array().map(|a| a.iter().filter_map(|x| x.as_str()).collect()).unwrap_or_default();
